@@ -38,6 +38,8 @@ type Property struct {
 	CrashIsViolation bool
 	// Env is extra environment for the workers.
 	Env func(tier string, shard int, workDir string) []string
+	// Credential lets single workers run under another uid (real EACCES faults).
+	Credential func(tier string, shard int) *syscall.Credential
 	// Post lets the property inspect the work directory after all workers
 	// ended (e.g. race detector logs) and add observations/violations.
 	Post func(a *Aggregate, workDir string)
@@ -163,6 +165,9 @@ func RunParent(propID, tier string, seed int64, rootDir, only string) int {
 				cmd.Env = append(cmd.Env, p.Env(tier, i, wdir)...)
 			}
 			cmd.SysProcAttr = &syscall.SysProcAttr{Setpgid: true}
+			if p.Credential != nil {
+				cmd.SysProcAttr.Credential = p.Credential(tier, i)
+			}
 			if err := cmd.Start(); err != nil {
 				stats[i].err = err
 				return
